@@ -90,7 +90,7 @@ CLAIMED = {
         "technique": "Coq proof (reverse-order index lemmas over an identity-addressed document model) + differential correspondence",
     },
     "C17": {
-        "text": ("20 theorems (Coq, no axioms) over a model of the save sequences of yaml-set, yaml-merge and "
+        "text": ("29 theorems (Coq, no axioms) over a model of the save sequences of yaml-set, yaml-merge and "
                  "eyaml-rotate-keys as call lists on an abstract file system (Target/Bak/Output/Tmp x "
                  "Orig/Stale/New/Partial) and of every exit of main() before the single write: a run that ends "
                  "before the write performs no call (file system identical, no .bak, no output); a document the "
@@ -100,17 +100,24 @@ CLAIMED = {
                  "every tool, start state and ANY single fault (every position, before/mid effect, OSError / "
                  "AssertionError / other Exception / KeyboardInterrupt; plus a second fault inside the restore "
                  "path) target or .bak still holds the original - also as a general lemma over arbitrary call "
-                 "lists of the shape pre ++ Copy2 Target Bak :: post.  Tie: fault enumeration on the real main() "
+                 "lists of the shape pre ++ Copy2 Target Bak :: post.  eyaml-rotate-keys dumps straight into the "
+                 "truncated file and restores nothing: a failing dump leaves the target Partial and, with --backup, the "
+                 ".bak = the original (C17_rotate_dump_failure_with_backup); without --backup the file is lost, exactly "
+                 "at the truncating open (mid) or the dump (C17_rotate_no_backup_losses, _refuted witness) - the "
+                 "property promises target-or-backup only with --backup and that is what holds.  The implicit close() of "
+                 "the `with` blocks of yaml-merge / eyaml-rotate-keys / yaml-set's JSON save is a call of its own "
+                 "(Sv.close_out): one copy survives any failing call FOLLOWED by a failing close() "
+                 "(C17_one_copy_survives_close_fault, C17_merge_one_copy_survives_two_faults).  Tie: fault enumeration on the real main() "
                  "functions in-process with the I/O calls wrapped in the command modules' namespaces, including "
                  "documents the real dumper / json refuse: traces and surviving bytes compared with the model for "
-                 "every fault position.  OS/disk-level atomicity cannot be exhibited (Partial is the pessimistic "
+                 "every fault position, close() failures (alone and as the second failure) injected on the real tools.  OS/disk-level atomicity cannot be exhibited (Partial is the pessimistic "
                  "stand-in)."),
         "design_ref": "DESIGN.md section 4 (C17), docs/C17.md",
         "note": NOTE_COMMON,
         "technique": "Coq proof (fault-indexed run of a call-list model) + fault-injection correspondence on the real tools",
     },
     "C19": {
-        "text": ("15 theorems (Coq, no axioms) over a model of EYAMLProcessor.is_eyaml_value / find_eyaml_paths and the "
+        "text": ("29 theorems (Coq, no axioms) over a model of EYAMLProcessor.is_eyaml_value / find_eyaml_paths and the "
                  "rotation of eyaml_rotate_keys.py (per-file loop with seen_anchors, save/backup decision, and the "
                  "loop over the files of one invocation), the cipher being Section variables with the three cipher "
                  "laws and a layout law as hypotheses: the ENC[ marker rule for every value; a file without "
@@ -120,11 +127,20 @@ CLAIMED = {
                  "secret stay one object and the cipher is asked at most once per anchor (C19_shared_once), and "
                  "at every encrypted position of every document the new ciphertext decrypts under the new key to "
                  "the old plaintext and not under the old key (C19_rekeyed_partial / C19_old_key_dead_partial, "
-                 "guard plain_ok = listed finding F19a with _refuted witnesses).  Tie: whole invocations of the "
+                 "guard plain_ok = listed finding F19a with _refuted witnesses).  The run over several files is proved: a "
+                 "file inside a run is rotated exactly as that file alone, only the exit status is carried "
+                 "(C19_file_in_run_is_file_alone, C19_files_independent: per-file results, the status as the fold 2 / 3 "
+                 "/ carried, a run left by an exception has done the files before it), and the document-level "
+                 "theorems hold for every file of every run (C19_run_*).  'Once' is also a count over the encryption "
+                 "log: seen_anchors = exactly the anchor names of the secrets; status 0 => at least one encryption per "
+                 "anchor name and per unanchored secret position (full), exactly one and every call reaching the "
+                 "cipher under the F19a guard on the whole document (C19_encrypt_calls_partial, _refuted witness "
+                 "replayed on the real tool).  The hypothesis loaded_doc (Inv, keys_ok) has a sound boolean version "
+                 "that the harness evaluates on every encoded document of every case.  Tie: whole invocations of the "
                  "real main() with 1-3 files against a keyed reversible stand-in eyaml executable (the "
                  "hiera-eyaml gem is absent); the judge decides 'encrypted' by the property's own rule."),
         "design_ref": "DESIGN.md section 4 (C19), docs/C19.md",
-        "note": NOTE_COMMON + "  The real hiera-eyaml/PKCS7 is replaced by harness/eyaml_standin.py; the multi-file loop has a model and a tie but no theorem.",
+        "note": NOTE_COMMON + "  The real hiera-eyaml/PKCS7 is replaced by harness/eyaml_standin.py; the save of a changed file between two files of a run is C17's model (Sv.CRotate), not part of Ey.rotate_files.",
         "technique": "Coq proof (identity-consistency invariant over leaf substitution; cipher laws as hypotheses) + differential correspondence with a stand-in eyaml",
     },
     "C07": {
@@ -149,13 +165,18 @@ CLAIMED = {
         "technique": "Coq proof (structural induction over the document with the seen-anchors list threaded) + differential correspondence",
     },
     "C18": {
-        "text": ("9 theorems (Coq, no axioms) over a model of merge_condense_all / merge_across / merge_matrix stated "
+        "text": ("19 theorems (Coq, no axioms) over a model of merge_condense_all / merge_across / merge_matrix / merge_docs stated "
                  "over an abstract pairwise merge (a Section variable, instantiated with the C05 model for "
                  "execution): condense-all is the left fold over both streams and yields one document; "
                  "merge-across yields max(|ls|,|rs|) documents, the i-th being merge2 l_i r_i, surplus right "
                  "documents appended in order, stopping at the first error; matrix yields |ls| documents, each the "
-                 "fold over all right documents; count and order depend on mode and lengths only.  Tie: the real "
-                 "driver functions with real Merger objects on streams of 1-4 documents x 3 modes x policies."),
+                 "fold over all right documents; count and order depend on mode and lengths only.  At the command line "
+                 "(over C16's glue model of main(), tied by ./check C16): the loop over the YAML_FILEs and the waiting "
+                 "STDIN, sources that do not load included, is run_streams over merge_docs - the first source with "
+                 "documents supplies the left-hand documents, an unloadable source is state 4 (left-hand) or 3 (later), "
+                 "the FIRST non-zero state in command-line order is the exit status and nothing is delivered "
+                 "(C18_cli_main_is_streams for merge_across / matrix_merge, C18_cli_first_error_wins).  Tie: the real "
+                 "merge_docs with real Merger objects on streams of 1-4 documents x 3 modes x policies."),
         "design_ref": "DESIGN.md section 4 (C18), docs/C18.md",
         "note": NOTE_COMMON,
         "technique": "Coq proof (list inductions over an abstract merge2) + differential correspondence",
